@@ -1,0 +1,53 @@
+//go:build verif
+
+package metadatapart
+
+import (
+	"fmt"
+
+	"github.com/jdillenkofer/pithos/internal/storage"
+	"github.com/jdillenkofer/pithos/internal/storage/database"
+	"github.com/jdillenkofer/pithos/internal/storage/metadatapart/gc"
+	"github.com/jdillenkofer/pithos/internal/storage/metadatapart/metadatastore"
+	"github.com/jdillenkofer/pithos/internal/storage/metadatapart/partstore"
+)
+
+// The functions in this file exist only in builds with the "verif" tag. They
+// give the external verification harness read access to internals of a
+// metadatapart storage; they change no behaviour.
+
+// VerifRunGCOnce runs one part garbage-collection pass synchronously.
+func VerifRunGCOnce(s storage.Storage) error {
+	mbs, ok := s.(*metadataPartStorage)
+	if !ok {
+		return fmt.Errorf("not a metadatapart storage: %T", s)
+	}
+	return gc.VerifRunOnce(mbs.partGC)
+}
+
+// VerifNamedStores returns the configured part stores keyed by name.
+func VerifNamedStores(s storage.Storage) map[string]partstore.PartStore {
+	mbs, ok := s.(*metadataPartStorage)
+	if !ok {
+		return nil
+	}
+	return mbs.partStores.All()
+}
+
+// VerifDatabase returns the (GC-protected) database of the storage.
+func VerifDatabase(s storage.Storage) database.Database {
+	mbs, ok := s.(*metadataPartStorage)
+	if !ok {
+		return nil
+	}
+	return mbs.db
+}
+
+// VerifMetadataStore returns the metadata store of the storage.
+func VerifMetadataStore(s storage.Storage) metadatastore.MetadataStore {
+	mbs, ok := s.(*metadataPartStorage)
+	if !ok {
+		return nil
+	}
+	return mbs.metadataStore
+}
